@@ -603,6 +603,7 @@ def run(ck, prog):
     ck.doc('C04.R5', 'Span constructor: every setter reached on every recording path, fed from its source, before OnStart', 10)
     ck.doc('C04.R6', 'type facts: recordables own their data; AttributeConverter exact for every alternative', 30)
     ck.doc('C04.R7', 'SpanData setters: every parameter stored on every path', 18)
+    ck.doc('C13.R7', '(shared rule) the simple span processor hands every ended span to the exporter (no path around Export)', 1)
     with ck.canary('C04.R1'):
         rule_r1(ck, prog, 'canary::c04::BadSpan')
     with ck.canary('C04.R2'):
@@ -622,4 +623,6 @@ def run(ck, prog):
     rule_r6(ck, prog)
     rule_r6_converter(ck, prog)
     rule_r7(ck, prog)
+    from . import c13
+    c13.rule_r7_simple(ck, prog, cls='sdk::trace::SimpleSpanProcessor', method='OnEnd')
     return {}
